@@ -123,6 +123,15 @@ def parse_case(line):
     for _ in range(int(nxt())):
         assert nxt() == "tx"
         mode, reuse = nxt(), nxt()
+        if mode == "g" or mode.startswith("g:"):
+            # a batch group; an observed schedule ("g:R.S1.R") is dropped: it is observed again on every run
+            members = []
+            for _ in range(int(nxt())):
+                assert nxt() == "mb"
+                fi, fp = nxt(), nxt()
+                members.append({"fi": fi, "fp": fp, "steps": [step() for _ in range(int(nxt()))]})
+            txs.append({"mode": "g", "reuse": reuse, "steps": [], "members": members})
+            continue
         steps = [step() for _ in range(int(nxt()))]
         txs.append({"mode": mode, "reuse": reuse, "steps": steps})
     assert pos[0] == len(t)
@@ -160,6 +169,13 @@ def unparse_case(c):
                 out += it
     out += ["T", str(len(c["txs"]))]
     for tx in c["txs"]:
+        if tx["mode"] == "g":
+            out += ["tx", "g", tx["reuse"], str(len(tx["members"]))]
+            for m in tx["members"]:
+                out += ["mb", m["fi"], m["fp"], str(len(m["steps"]))]
+                for s in m["steps"]:
+                    out += s
+            continue
         out += ["tx", tx["mode"], tx["reuse"], str(len(tx["steps"]))]
         for s in tx["steps"]:
             out += s
@@ -178,6 +194,27 @@ def shrink_candidates(c):
             d = copy.deepcopy(c)
             del d["txs"][i]["steps"][j]
             yield d
+    for i, tx in enumerate(c["txs"]):
+        for k, m in enumerate(tx.get("members", [])):
+            if len(tx["members"]) > 1:
+                d = copy.deepcopy(c)
+                del d["txs"][i]["members"][k]
+                yield d
+            for j in range(len(m["steps"])):
+                d = copy.deepcopy(c)
+                del d["txs"][i]["members"][k]["steps"][j]
+                if int(m["fp"]) > j:
+                    d["txs"][i]["members"][k]["fp"] = str(int(m["fp"]) - 1)
+                yield d
+            if m["fi"] != "0":
+                d = copy.deepcopy(c)
+                d["txs"][i]["members"][k]["fi"] = "0"
+                d["txs"][i]["members"][k]["fp"] = "0"
+                yield d
+                if int(m["fi"]) > 1:
+                    d = copy.deepcopy(c)
+                    d["txs"][i]["members"][k]["fi"] = str(int(m["fi"]) - 1)
+                    yield d
     for key in ("regsP", "regsC", "regsD", "ixP", "ixC", "ixD"):
         for i in range(len(c.get(key, []))):
             d = copy.deepcopy(c)
@@ -255,15 +292,19 @@ def project_tx(rec, events_on_commit=True):
     multisets, commit actions, tx-complete calls.  With events_on_commit=False (C07) the callbacks
     of a committed transaction are not compared (C07 only demands that a failed one runs none)."""
     f = tx_fields(rec)
-    r = f.get("r", "?")
-    r = "ok" if r == "ok" else ("err" if r.startswith("err") else r)
+    # a batch group reports one result per member: ok+err:…+ok
+    r = "+".join("ok" if x == "ok" else ("err" if x.startswith("err") else x) for x in f.get("r", "?").split("+"))
     extra = " goroutines-still-running" if rec.endswith("goroutines-still-running") else ""
+    if "g" in f and not events_on_commit:
+        # C07 on a batch group: every call's outcome and the database; what the committed transactions deliver is
+        # C08's subject (C07 only demands that nothing is delivered beyond it, see `surplus`)
+        return "g=%s r=%s same=%s dump=%s%s" % (f.get("g"), r, f.get("same"), f.get("dump"), extra)
     # the property does not say on which goroutine commit actions run
     ca = sort_list(re.sub(r"(?<=[\[,])S\.", "A.", f.get("ca", "")))
     if r == "ok" and not events_on_commit:
         return "r=ok same=%s dump=%s%s" % (f.get("same"), f.get("dump"), extra)
-    return "r=%s same=%s sync=%s async=%s ca=%s dump=%s%s" % (
-        r, f.get("same"), sort_list(f.get("sync", "")), sort_list(f.get("async", "")), ca, f.get("dump"), extra)
+    return "%sr=%s same=%s sync=%s async=%s ca=%s dump=%s%s" % (
+        ("g=%s " % f.get("g")) if "g" in f else "", r, f.get("same"), sort_list(f.get("sync", "")), sort_list(f.get("async", "")), ca, f.get("dump"), extra)
 
 
 def tx_disagreements(impl_line, spec_line, events_on_commit=True):
@@ -280,7 +321,7 @@ def tx_disagreements(impl_line, spec_line, events_on_commit=True):
         n += 1
         if project_tx(x, events_on_commit) != project_tx(y, events_on_commit):
             bad.append(i)
-        elif not events_on_commit and tx_fields(x).get("r") == "ok" and surplus(x, y):
+        elif not events_on_commit and (tx_fields(x).get("r") == "ok" or "g" in tx_fields(x)) and surplus(x, y):
             # C07: "no commit action or listener runs" for failed work — a committed transaction must not
             # deliver anything that is not its own
             bad.append(i)
@@ -341,14 +382,75 @@ def model_agrees(impl_line, model_line):
     for x, y in zip(a, m):
         if y.endswith("dump=inexact"):
             fx, fy = tx_fields(x), tx_fields(y)
-            return all(fx.get(k) == fy.get(k) for k in ("r", "runs", "pre", "pa", "sync", "async", "ca"))
+            return all(fx.get(k) == fy.get(k) for k in ("g", "r", "runs", "seq", "pre", "pa", "sync", "async", "ca"))
         if x != y:
             return False
     return True
 
 
 def failure_kinds(impl_line):
-    return [tx_fields(rec).get("r", "?") for rec in impl_line.split(" | ")]
+    """one outcome per transaction; a batch group contributes one per member call"""
+    return [r for rec in impl_line.split(" | ") for r in tx_fields(rec).get("r", "?").split("+")]
+
+
+# ------------------------------------------------------------------ batch groups: the observed schedule
+
+def observed_schedule(rec):
+    """seq=[R0.1-,S1+,R0+] of a group record -> "R.S1.R" (the order of the group's bbolt transactions)"""
+    seq = tx_fields(rec).get("seq")
+    if not seq or not (seq.startswith("[") and seq.endswith("]")) or len(seq) == 2:
+        return None
+    toks = []
+    for x in seq[1:-1].split(","):
+        x = x.rstrip("+-")
+        if x.startswith("R"):
+            toks.append("R")
+        elif re.fullmatch(r"S[0-9]+", x):
+            toks.append(x)
+        else:
+            return None
+    return ".".join(toks)
+
+
+def with_schedule(case_line, impl_line):
+    """the case line as model and spec get it: every batch group ("tx g …") carries the order in which the
+    implementation ran its bbolt transactions ("tx g:R.S1.R …") — after a failed round of a batch the solo re-run of the
+    failing member and the next round compete for bbolt's writer lock; model and spec judge everything else"""
+    if " tx g " not in case_line or impl_line is None:
+        return case_line
+    recs = impl_line.split(" | ")
+    toks = case_line.split(" ")
+    j = -1
+    for i, t in enumerate(toks):
+        if t == "tx":
+            j += 1
+            if i + 1 < len(toks) and toks[i + 1] == "g" and j < len(recs):
+                sched = observed_schedule(recs[j])
+                if sched:
+                    toks[i + 1] = "g:" + sched
+    return " ".join(toks)
+
+
+def run_cases(ctx, prop, cases_text, timeout=3600):
+    """common.run_cases, with the schedule of every batch group taken from the implementation's run"""
+    lines = [l for l in cases_text.split("\n") if l]
+    if not any(" tx g " in l for l in lines):
+        return common.run_cases(ctx, prop, cases_text, timeout=timeout)
+    impl_l = common.run_impl(ctx, prop, lines, timeout=timeout)
+    aug = [with_schedule(l, impl_l[k] if k < len(impl_l) else None) for k, l in enumerate(lines)]
+    data = ("\n".join(aug) + "\n").encode()
+    outs = []
+    for args in ([common.DRIVER], [common.DRIVER, "spec"]):
+        rc, out = common.sh(args, inp=data, timeout=timeout)
+        if rc != 0:
+            ctx.log(f"driver exited {rc}: {out[-500:]}")
+        ls = out.split("\n")
+        if ls and ls[-1] == "":
+            ls.pop()
+        outs.append(ls)
+    model_l, spec_l = outs
+    impl_l = [model_l[k] if a == common.SKIPPED and k < len(model_l) else a for k, a in enumerate(impl_l)]
+    return impl_l, model_l, spec_l
 
 
 # ------------------------------------------------------------------ the flow
@@ -370,7 +472,7 @@ def run_flow(ctx, prop_lc, module, theorems, matchers, nontrivial, rule, table_o
         lines = replay_cases
     else:
         lines = common.corpus_cases(prop_lc) + [l for l in common.gen_cases(ctx, prop_lc).split("\n") if l]
-    impl, model, spec = common.run_cases(ctx, prop_lc, "\n".join(lines) + "\n")
+    impl, model, spec = run_cases(ctx, prop_lc, "\n".join(lines) + "\n")
     n = len(lines)
     if len(impl) != n or len(model) != n or len(spec) != n:
         ctx.obligation("output streams aligned", False, f"cases {n} impl {len(impl)} model {len(model)} spec {len(spec)}")
@@ -410,6 +512,8 @@ def run_flow(ctx, prop_lc, module, theorems, matchers, nontrivial, rule, table_o
 
     def describe(c, a, m, s, where=None):
         d = {"case": c, "impl": a.split(" | "), "model": m.split(" | "), "spec": s.split(" | ")}
+        if with_schedule(c, a) != c:
+            d["case_as_given_to_model_and_spec"] = with_schedule(c, a)
         if where is not None:
             d["first_disagreeing_transaction"] = where
             recs = a.split(" | ")
@@ -445,7 +549,7 @@ def run_flow(ctx, prop_lc, module, theorems, matchers, nontrivial, rule, table_o
         c, a, m, s, where = min(unknown, key=lambda u: (len(u[0]), u[0]))
         shrunk = shrink(ctx, prop_lc, c, matchers, events_on_commit) if replay_cases is None else c
         if shrunk != c:
-            a2, m2, s2 = common.run_cases(ctx, prop_lc, shrunk + "\n")
+            a2, m2, s2 = run_cases(ctx, prop_lc, shrunk + "\n")
             ok, where2, _ = spec_agrees(a2[0], s2[0], events_on_commit)
             if not ok:
                 c, a, m, s, where = shrunk, a2[0], m2[0], s2[0], where2
@@ -475,7 +579,7 @@ def shrink(ctx, prop_lc, line, matchers=None, events_on_commit=True, budget=250)
         return line
 
     def fails(cand_line):
-        a, _m, s = common.run_cases(ctx, prop_lc, cand_line + "\n")
+        a, _m, s = run_cases(ctx, prop_lc, cand_line + "\n")
         if len(a) != 1 or len(s) != 1 or a[0].startswith("panic") or s[0] == "bad-case":
             return False
         ok, _w, _n = spec_agrees(a[0], s[0], events_on_commit)
